@@ -2,7 +2,7 @@
    Full-strength statement: C16 (see DESIGN.md section 7) (Cluster/Statements.v). Proved so far: the theorems below; what is
    not yet proved is decided on every run by the lock-step co-simulation (model = implementation on every
    explored schedule) together with the monitors run on the implementation's own observations. *)
-From RaftV Require Import Cluster.Statements Proofs.RVSpec Proofs.AESpec.
+From RaftV Require Import Cluster.Statements Proofs.RVSpec Proofs.AESpec Proofs.ReadSpec.
 Open Scope N_scope.
 
 (* RequestVote, every voter state x every request *)
@@ -15,3 +15,27 @@ Theorem C16_vote_refused_if_voted_other : forall now n q v,
   rv_granted (snd (h_request_vote now n q)) = false /\ n_vote (fst (h_request_vote now n q)) = Some v.
 Proof. exact rv_already_voted. Qed.
 Print Assumptions C16_vote_refused_if_voted_other.
+
+(* Stickiness, for every node state and every request: a node that has heard from a leader within the election
+   timeout, or a leader whose lease is valid, refuses every vote request - prevote or real, of any term - and does
+   not change in any way: an isolated or removed server cannot make it adopt a term or step down. *)
+Theorem C16_sticky_voter_refuses_and_does_not_change : forall now n q,
+  role_eqb (n_role n) Shutdown = false -> lease_valid now n || recent_contact now n = true ->
+  h_request_vote now n q = (n, Some {| rvr_term := n_term n; rvr_granted := false |}).
+Proof. exact rv_sticky. Qed.
+Print Assumptions C16_sticky_voter_refuses_and_does_not_change.
+
+(* Prevote: the election timer of a follower (not alone in its configuration) does not touch the term or the vote,
+   in memory or on disk: an isolated node does not inflate its term. *)
+Theorem C16_election_timeout_starts_a_prevote : forall now n,
+  n_role n = Follower -> is_single (conf_of n) (n_id n) = false ->
+  let n' := l_election now n in
+  n_term n' = n_term n /\ n_vote n' = n_vote n /\ n_pterm n' = n_pterm n /\ n_pvote n' = n_pvote n /\
+  (n_role n' = Follower \/ n_role n' = PreCandidate).
+Proof. exact election_prevote_keeps_term. Qed.
+Print Assumptions C16_election_timeout_starts_a_prevote.
+
+(* and a prevote request changes nothing in the voter *)
+Theorem C16_prevote_request_changes_nothing : forall now n q, rv_prevote q = true -> fst (h_request_vote now n q) = n.
+Proof. exact rv_prevote_pure. Qed.
+Print Assumptions C16_prevote_request_changes_nothing.
